@@ -398,7 +398,7 @@ fn recover_forked(cfg: &Cfg, img: &FsImage, universe: u64, model: &Model) -> (u8
 
 /// The server's start-up decision (main()'s recover-or-fresh lines, strict, no fresh start after a failed recovery) on
 /// a damaged directory: 0 = started with exactly the model, 1 = started with something else, 2 = refused, 3 = panicked.
-fn server_start_on_image(cfg: &Cfg, img: &FsImage, universe: u64, model: &Model) -> (u8, String) {
+pub(crate) fn server_start_on_image(cfg: &Cfg, img: &FsImage, universe: u64, model: &Model) -> (u8, String) {
     let dir = fresh_dir("c13s", 0);
     img.dump(&dir);
     let root = simlibc::register_root(&dir, Some(img), true);
